@@ -232,7 +232,12 @@ pub fn shrink(src: &str, kind: &str) -> String {
         }
     }
     let text: String = toks.concat();
-    text.split_whitespace().collect::<Vec<_>>().join(" ")
+    let lines: Vec<String> = text
+        .lines()
+        .map(|l| l.split_whitespace().collect::<Vec<_>>().join(" "))
+        .filter(|l| !l.is_empty())
+        .collect();
+    lines.join(" ⏎ ")
 }
 
 fn handle(source: &str) -> Acc {
@@ -286,6 +291,9 @@ pub fn run(tier: Tier) -> Result<Report, String> {
     let ctx_nodes = if thorough { 3 } else { 2 };
     programs.extend(progen::in_contexts(ctx_nodes, if thorough { 3_000_000 } else { 60_000 }));
     let in_ctx = programs.len() - flat;
+    let before_typed = programs.len();
+    programs.extend(crate::c01::typed_programs(thorough));
+    let typed = programs.len() - before_typed;
     let total = programs.len();
     let acc = programs
         .par_chunks(512)
@@ -325,14 +333,14 @@ pub fn run(tier: Tier) -> Result<Report, String> {
             None => format!("{}|{}", kind, core),
         };
         by_sig.entry(sig.clone()).or_insert_with(|| {
-            let (e2, o2) = match judge(&core) {
+            let (e2, o2) = match judge(&core.replace(" ⏎ ", "\n")) {
                 Verdict::Disagree { expected, observed, .. } => (expected, observed),
                 _ => (exp.clone(), obs.clone()),
             };
             Violation {
                 signature: sig,
                 summary: format!("`{}`: the reference semantics give {} but compiled execution gives {} (first seen in `{}`)", core, e2, o2, src),
-                replay: json!({"engine": "c02", "source": core, "original": src}),
+                replay: json!({"engine": "c02", "source": core.replace(" ⏎ ", "\n"), "original": src}),
             }
         });
     }
@@ -346,6 +354,7 @@ pub fn run(tier: Tier) -> Result<Report, String> {
         "context_core_nodes": ctx_nodes,
         "programs_flat": flat,
         "programs_in_contexts": in_ctx,
+        "programs_in_typed_contexts": typed,
         "contexts": progen::CONTEXTS.len(),
         "rejected_by_compiler": acc.rejected,
         "accepted": acc.accepted,
